@@ -951,6 +951,24 @@ pub fn all() -> Vec<Box<dyn Check>> {
         });
         v.insert(pos, Box::new(Multi { id: "C04", parts: vec![l, k], weights: vec![1, 10] }));
     }
+    // C02: closed loop on the shell (engine L) plus direct accounting histories (engine K)
+    {
+        let pos = v.iter().position(|c| c.id() == "C02").unwrap();
+        let l = v.remove(pos);
+        let k = Box::new(crate::ksim::checks::KCheck {
+            id: "C02",
+            level: "exploration",
+            generate: crate::ksim::checks::gen_c02,
+            monitors: || vec![Box::new(crate::ksim::c02::C02K::default())],
+            full_select_obs: false,
+            quick_runs: 10_000,
+            thorough_runs: 1_000_000,
+            rule: "direct accounting histories on the real core (20..200 events, 1..4 links): packets registered through queue + take_batch with numbers anywhere in a non-wrapping window of the 31-bit space (strides, jumps, retransmissions of numbers the cumulative ACK already passed, on the same or another link), cumulative ACKs in order / duplicate / stale / > 64 ahead, SRTLA ACKs on the holder or on another link, NAKs single and repeated, resets; after every event each link's outstanding log equals the set model as a set",
+            assumptions: &["the arrival-link-first / first-other-holder loop of process_connection_events is mirrored for SRTLA ACKs; NAKs are applied to the named link directly (C05 judges attribution)"],
+            probes: &["c02k.register", "c02k.cumulative_ack", "c02k.srtla_ack_arrival_link", "c02k.srtla_ack_other_holder", "c02k.nak", "c02k.reset"],
+        });
+        v.insert(pos, Box::new(Multi { id: "C02", parts: vec![l, k], weights: vec![1, 25] }));
+    }
     v.extend(k_checks());
     v.push(Box::new(crate::tsim::c18::C18Check));
     v.push(Box::new(crate::tsim::c20::C20Check));
